@@ -52,11 +52,12 @@ def run_inter(case, mon):
             rho = diff.siteprob(w['pre'], w['bE'])
             sc0 = max(max(rho[i] * r * np.dot(dx, dx) for jl, rl in zip(jn, rates) for ((i, j), dx), r in zip(jl, rl)), 1e-300)
             D = diff.diffusivity(w['pre'], w['bE'], w['preT'], w['bET'])
-            contracts.tensor2_contract(mon, crys, D, 'D', psd=True, scale=max(sc0, np.abs(D).max()))
+            tolI = 1e-7 if k % 2 == 0 else 1e-9   # hostile draws (rate ratios up to 1e12): cancellation of the bare and the correlated part
+            contracts.tensor2_contract(mon, crys, D, 'D', psd=True, scale=max(sc0, np.abs(D).max()), tol=tolI)
             dip = [rng.normal(size=(crys.dim,) * 2) for _ in sl]
             dipT = [rng.normal(size=(crys.dim,) * 2) for _ in jn]
             D2, dD = diff.elastodiffusion(w['pre'], w['bE'], dip, w['preT'], w['bET'], dipT)
-            contracts.tensor2_contract(mon, crys, D2, 'D(elasto)', psd=True, scale=max(sc0, np.abs(D2).max()))
+            contracts.tensor2_contract(mon, crys, D2, 'D(elasto)', psd=True, scale=max(sc0, np.abs(D2).max()), tol=tolI)
             contracts.tensor4_contract(mon, crys, dD, 'elastodiffusion', scale=max(sc0 * 10, np.abs(dD).max()))
             mon.sig(['inter', w['spec']['kind'], N, len(jn), case['idx'], k])
     return sample
@@ -85,9 +86,17 @@ def run_vac(case, mon):
                 mon.count('large_branch_calls', probe.hits['large'] > 0)
             except Exception as e:
                 import traceback
-                mon.fail('C03:Lij:raises:' + type(e).__name__, traceback.format_exc()[-500:] + str(desc), tags)
+                tb = traceback.format_exc()[-500:]
+                try:   # anisotropy of the bare vacancy diffusivity (finding F24: the k-mesh ignores it)
+                    ev0 = np.linalg.eigvalsh(np.array(diff.GFcalc.D))
+                    if ev0.min() <= 0 or ev0.max() >= 50 * ev0.min(): tags = tags + ['L0vv_anisotropy>=50']
+                except Exception:
+                    pass
+                mon.fail('C03:Lij:raises:' + type(e).__name__, tb + str(desc), tags)
                 continue
             sc = max(np.abs(L[0]).max(), np.abs(L[1]).max(), 1e-300)
+            ev0 = np.linalg.eigvalsh(0.5 * (L[0] + L[0].T))
+            if ev0.min() <= 0 or ev0.max() >= 50 * ev0.min(): tags = tags + ['L0vv_anisotropy>=50']
             # hostile inputs (sigma 3: rates spanning e^+-9) on low-symmetry crystals reach the tensor symmetry only numerically
             tol = 1e-5 if (kk >= 8 or sigma >= 1 or 'large_om2_algorithm' in tags) else (1e-7 if kk >= 4 else 1e-9)
             for nm, x, psd in (('L0vv', L[0], True), ('Lss', L[1], True), ('Lsv', L[2], False), ('L1vv', L[3], False)):
